@@ -188,6 +188,7 @@ PROPS["C16"] = {
              plain("enum", "wire", "TestHostileEnum"),
              rapid("bytes", "wire", "TestWireBytes", 20000, 300000, shards=(2, 12)),
              rapid("internal", "wire", "TestInternalTargets", 400, 4000, shards=(1, 4)),
+             rapid("streams", "wire", "TestConcurrentStreams", 300, 3000, shards=(1, 4)),
              fuzz("fuzz", "wire", "FuzzEnvelopeBytes", 90)],
 }
 
